@@ -1,4 +1,5 @@
 import ShredModel.Lemmas.Scenario
+import ShredModel.Lemmas.Effect
 /-!
 # C05 — schedule independence: parallel dispatch equals sequential dispatch
 
@@ -6,9 +7,46 @@ import ShredModel.Lemmas.Scenario
 own state). The hypothesis `hcomm` is what "every system's behaviour depends only on its own
 state and on the resources it declared" provides: events of two systems whose declared access
 does not conflict commute. Then **every** trace of the parallel plan — every interleaving —
-has the same effect as the one trace `dispatch_seq` produces.
+has the same effect as the one trace `dispatch_seq` produces (`C05_seq_has_one_trace`), and
+this is preserved over any number of dispatches (`C05_repeated`). The harness's own systems
+(`Model/Effect.lean::runSys`, the same code as `harness/src/sys.rs::HSys::run`, an
+order-sensitive update) satisfy the hypothesis (`C05_harness_commutes`), so the statement is
+not vacuous and `C05_harness_schedule_independent` is what the correspondence run compares the
+real parallel dispatches with.
 -/
 namespace Shred
+
+/-- no `par` node -/
+def Task.NoPar {ι} : Task ι → Prop
+  | .nil => True
+  | .leaf _ => True
+  | .seq a b => a.NoPar ∧ b.NoPar
+  | .par _ _ => False
+  | .scope _ b => b.NoPar
+
+theorem traces_noPar {ι} {t : Task ι} {l : List (Ev ι)} (h : Traces t l) (hn : t.NoPar) : l = t.seqTrace := by
+  induction h with
+  | nil => rfl
+  | leaf s => rfl
+  | seq _ _ iha ihb => simp only [Task.seqTrace]; rw [iha hn.1, ihb hn.2]
+  | par _ _ _ _ _ => exact absurd hn (by simp [Task.NoPar])
+  | scope _ ih => simp only [Task.seqTrace]; rw [ih hn]
+
+theorem noPar_seqN {ι} (ts : List (Task ι)) (h : ∀ t, t ∈ ts → t.NoPar) : (Task.seqN ts).NoPar := by
+  induction ts with
+  | nil => trivial
+  | cons t ts ih => exact ⟨h t (by simp), ih (fun t' ht' => h t' (by simp [ht']))⟩
+
+theorem seqTrace_seqN {ι} (ts : List (Task ι)) : (Task.seqN ts).seqTrace = ts.flatMap Task.seqTrace := by
+  induction ts with
+  | nil => rfl
+  | cons t ts ih => simp [Task.seqN, Task.seqTrace, ih]
+
+theorem seqTrace_parN {ι} (ts : List (Task ι)) : (Task.parN ts).seqTrace = ts.flatMap Task.seqTrace := by
+  induction ts with
+  | nil => rfl
+  | cons t ts ih => simp [Task.parN, Task.seqTrace, ih]
+
 namespace Scenario
 variable (sc : Scenario)
 
@@ -20,7 +58,97 @@ theorem C05_schedule_independence {σ : Type} (act : Ev SysTag → σ → σ)
   obtain ⟨z, hz⟩ := sc.good
   exact par_eq_seq (Compat := CompatD sc.D) act hcomm hl (wf_dispatchTask hz sc.tl) s
 
+/-- **C05 (what `dispatch_seq` does).** Sequential dispatch has exactly one trace, and it is the
+sequential reading of the parallel plan. -/
+theorem C05_seq_has_one_trace (l : List (Ev SysTag)) (hl : Traces sc.planSeq l) : l = sc.plan.seqTrace := by
+  have hn : sc.planSeq.NoPar := by
+    unfold planSeq dispatchSeqTask stagesTaskSeq stageTaskSeq groupTask
+    refine ⟨noPar_seqN _ ?_, noPar_seqN _ ?_⟩
+    · intro a ha
+      obtain ⟨st, _, rfl⟩ := List.mem_map.mp ha
+      apply noPar_seqN
+      intro b hb
+      obtain ⟨g, _, rfl⟩ := List.mem_map.mp hb
+      apply noPar_seqN
+      intro c hc
+      obtain ⟨x, _, rfl⟩ := List.mem_map.mp hc
+      trivial
+    · intro c hc
+      obtain ⟨x, _, rfl⟩ := List.mem_map.mp hc
+      trivial
+  rw [traces_noPar hl hn]
+  unfold planSeq plan dispatchSeqTask dispatchTask stagesTaskSeq stagesTask stageTaskSeq stageTask
+  simp only [Task.seqTrace, seqTrace_seqN]
+  congr 1
+  induction sc.final.b.stages with
+  | nil => rfl
+  | cons st sts ih =>
+    simp only [List.map_cons, List.flatMap_cons, ih, seqTrace_seqN, seqTrace_parN]
+
+/-- **C05 (parallel = sequential).** Whatever interleaving the parallel dispatch takes and
+the one trace of the sequential dispatch have the same effect. -/
+theorem C05_par_eq_seq {σ : Type} (act : Ev SysTag → σ → σ)
+    (hcomm : ∀ e1 e2, ¬ conflictsD (sc.D e1.sys) (sc.D e2.sys) → ∀ s, act e1 (act e2 s) = act e2 (act e1 s))
+    (lp ls : List (Ev SysTag)) (hp : Traces sc.plan lp) (hs : Traces sc.planSeq ls) (s : σ) :
+    eval act lp s = eval act ls s := by
+  rw [sc.C05_seq_has_one_trace ls hs]
+  exact sc.C05_schedule_independence act hcomm lp hp s
+
+/-- **C05 (repetition).** Any number of parallel dispatches, each with its own interleaving,
+have the effect of the same number of sequential dispatches. -/
+theorem C05_repeated {σ : Type} (act : Ev SysTag → σ → σ)
+    (hcomm : ∀ e1 e2, ¬ conflictsD (sc.D e1.sys) (sc.D e2.sys) → ∀ s, act e1 (act e2 s) = act e2 (act e1 s))
+    (ls : List (List (Ev SysTag))) (hls : ∀ l, l ∈ ls → Traces sc.plan l) (s : σ) :
+    eval act ls.flatten s = eval act (List.replicate ls.length sc.plan.seqTrace).flatten s := by
+  induction ls generalizing s with
+  | nil => rfl
+  | cons l ls ih =>
+    simp only [List.flatten_cons, List.length_cons, List.replicate_succ, eval_append]
+    rw [sc.C05_schedule_independence act hcomm l (hls l (by simp)) s]
+    exact ih (fun l' hl' => hls l' (by simp [hl'])) _
+
+/-- the effect of the harness's systems: all of it happens inside the window, here at `D` -/
+def harnessAct (D : Nat → Decl) : Ev SysTag → EffState → EffState
+  | .D x, st => runSys x (D x) st
+  | .F _, st => st
+
+/-- **C05 (the hypothesis is satisfiable).** The harness's order-sensitive systems commute
+whenever their declarations do not conflict. -/
+theorem C05_harness_commutes (D : Nat → Decl) (e1 e2 : Ev SysTag)
+    (h : ¬ conflictsD (D e1.sys) (D e2.sys)) (s : EffState) :
+    harnessAct D e1 (harnessAct D e2 s) = harnessAct D e2 (harnessAct D e1 s) := by
+  cases e1 with
+  | F x => rfl
+  | D x =>
+    cases e2 with
+    | F y => rfl
+    | D y =>
+      simp only [harnessAct]
+      by_cases hxy : x = y
+      · subst hxy; rfl
+      · exact runSys_comm x y (D x) (D y) hxy h s
+
+/-- **C05 for the harness's systems**: what the correspondence run compares real parallel
+dispatches with. -/
+theorem C05_harness_schedule_independent (l : List (Ev SysTag)) (hl : Traces sc.plan l) (st : EffState) :
+    eval (harnessAct sc.D) l st = eval (harnessAct sc.D) sc.plan.seqTrace st :=
+  sc.C05_schedule_independence (harnessAct sc.D) (C05_harness_commutes sc.D) l hl st
+
 end Scenario
+
+/-- the update really is order-sensitive: two writers of one resource do **not** commute -/
+example : (runSys 0 ⟨[], [⟨0, 0⟩], 1⟩ (runSys 1 ⟨[], [⟨0, 0⟩], 1⟩ EffState.init)).world ⟨0, 0⟩ ≠
+    (runSys 1 ⟨[], [⟨0, 0⟩], 1⟩ (runSys 0 ⟨[], [⟨0, 0⟩], 1⟩ EffState.init)).world ⟨0, 0⟩ := by decide
+
 end Shred
 
+#print axioms Shred.traces_noPar
+#print axioms Shred.noPar_seqN
+#print axioms Shred.seqTrace_seqN
+#print axioms Shred.seqTrace_parN
 #print axioms Shred.Scenario.C05_schedule_independence
+#print axioms Shred.Scenario.C05_seq_has_one_trace
+#print axioms Shred.Scenario.C05_par_eq_seq
+#print axioms Shred.Scenario.C05_repeated
+#print axioms Shred.Scenario.C05_harness_commutes
+#print axioms Shred.Scenario.C05_harness_schedule_independent
